@@ -27,7 +27,7 @@ TEXTS = {
         technique="stateful model-based property testing (rapid state machine) against an exact map model",
     ),
     'C05': dict(
-        text="Model-based stateful property testing on both collapsing stores with N from 1 to 2048: after every step the observation must equal fold(M,N) of the exact unfolded content, with bins <= N, span <= N, total conserved and (hook) allocated length <= N; merge arguments of all kinds and independent bin limits, including wide same-kind arguments into empty/cleared receivers (the shape of repaired finding F1). A sketch-level generator checks alpha-accuracy of every quantile whose floor/ceil order statistics lie in retained bins; large-scale workloads and wide-range weights (per-bin comparison against 400-bit arithmetic) as in C04.",
+        text="Model-based stateful property testing on both collapsing stores with N from 1 to 2048 (histories include weights reweighted until they underflow to exactly 0, after which the store must behave as an empty one: repaired finding F8): after every step the observation must equal fold(M,N) of the exact unfolded content, with bins <= N, span <= N, total conserved and (hook) allocated length <= N; merge arguments of all kinds and independent bin limits, including wide same-kind arguments into empty/cleared receivers (the shape of repaired finding F1). A sketch-level generator checks alpha-accuracy of every quantile whose floor/ceil order statistics lie in retained bins; large-scale workloads and wide-range weights (per-bin comparison against 400-bit arithmetic) as in C04.",
         design_ref="DESIGN.md §2 C05",
         note="Trusted: the fold model (history independence of folding is itself exercised: any dependence shows up as a mismatch). Sketch-level clause asserts accuracy only when both candidate order statistics are retained.",
         technique="stateful model-based property testing (rapid state machine) against fold(exact map, N); generated sketch-level accuracy cases",
@@ -39,7 +39,7 @@ TEXTS = {
         technique="property-based round-trip and metamorphic testing (rapid) with an independent wire-format reader",
     ),
     'C20': dict(
-        text="Model-based stateful property testing of dataset.Dataset against a sorted-slice model: additions interleaved with lower/upper quantile, min, max, sum, count queries and merges; exact rational ranks; a permuted twin must answer identically. A large-scale generator (1000..65537 values, queries interleaved with batches below the minimum / above the maximum / equal to it, merges) covers sizes short histories never reach.",
+        text="Model-based stateful property testing of dataset.Dataset against a sorted-slice model: additions interleaved with lower/upper quantile, min, max, sum, count queries and merges; exact rational ranks; a permuted twin must answer identically. A large-scale generator (1000..65537 values, queries interleaved with batches below the minimum / above the maximum / equal to it, merges) covers sizes short histories never reach; quantiles include NaN and -0 (repaired finding F11).",
         design_ref="DESIGN.md §2 C20",
         note="Trusted: sort.Float64s for the model, Shewchuk exact summation for the reference sum. Both readings of floor(q*(n-1)) (exact / binary64) accepted.",
         technique="stateful model-based property testing (rapid state machine) against a sorted multiset",
@@ -75,7 +75,7 @@ TEXTS = {
         technique="stateful model-based property testing (rapid state machine) with an exact statistics model and a differential plain twin",
     ),
     'C11': dict(
-        text="Generated-input search against an exact weighted reference: (value, dyadic weight) multisets with total weight from 2^-10 up (40% below 1, by light adds or by scaling down), every store/mapping kind; each answer must be within alpha of an absorbed value whose exact cumulative-weight interval lies within one unit of the exact rank q*(W-1), inside [min,max] and never of the sign of an empty side. Re-detects repaired finding F4.",
+        text="Generated-input search against an exact weighted reference: (value, dyadic weight) multisets with total weight from 2^-10 up (40% below 1, by light adds or by scaling down), every store/mapping kind; each answer must be within alpha of an absorbed value whose exact cumulative-weight interval lies within one unit of the exact rank q*(W-1), inside [min,max] and never of the sign of an empty side; a second generator reaches totals of 2^52..2^90 by reweighting and checks the clauses that remain decidable there (within alpha of an absorbed value, inside [min,max], never from an empty side). Re-detects repaired findings F4 and F9.",
         design_ref="DESIGN.md §2 C11",
         note="Trusted: exact rational rank (big.Rat), sorted entry list. The 'one unit' window is what the rank arithmetic can guarantee; nothing tighter is asserted.",
         technique="property-based testing (rapid) against an exact cumulative-weight model",
@@ -87,7 +87,7 @@ TEXTS = {
         technique="property-based testing (rapid) with shape-forcing generators against an exact model and coherence predicates",
     ),
     'C13': dict(
-        text="Generated-input search over invalid and boundary inputs: a sketch in a generated reachable state receives one call from the documented-invalid and boundary classes (adds, quantiles, merges with mappings that differ in kind, accuracy or only in index offset, non-positive reweights at sketch and store level, constructors, NewBin, summary statistics constructors); the documented error (or nil for valid input) is required and the full observation before and after a refusal must be identical; one time in four the sketch first decode-merges a mapping that is Equal without being bit-identical, after which the bounds of its current mapping decide. Re-detects repaired finding F5.",
+        text="Generated-input search over invalid and boundary inputs: a sketch in a generated reachable state receives one call from the documented-invalid and boundary classes (adds, quantiles, merges with mappings that differ in kind, accuracy or only in index offset, non-positive reweights at sketch and store level, constructors, NewBin, summary statistics constructors); the documented error (or nil for valid input) is required and the full observation before and after a refusal must be identical; one time in four the sketch first decode-merges a mapping that is Equal without being bit-identical, after which the bounds of its current mapping decide. A further generator uses mappings whose indexable range is empty or degenerate (accuracy below 2.3e-10, huge index offsets), and the constructor oracle requires a usable object or an error, never neither. Re-detects repaired findings F5, F12, F13, F14.",
         design_ref="DESIGN.md §2 C13",
         note="Trusted: obs.Sketch observer.",
         technique="property-based testing (rapid) with a contract-derived expected outcome and before/after observation equality",
@@ -111,13 +111,13 @@ TEXTS = {
         technique="metamorphic property testing (rapid): replay-with-scaled-weights twin plus exact model",
     ),
     'C17': dict(
-        text="Generated-input search with validity predicates derived from the conversion's specification: for ordered mapping pairs (3x3 kinds; coarser, finer, equal, bin-aligned) and scales in [1e-3,1e3], the result must carry the requested mapping, leave the source unchanged, keep zero weight exactly and total weight within a derived bound, hold no negative bin (observed through forms that show non-positive bins), place weight only in target bins overlapping scaled source bins (isolated source bins hand over exactly their weight), answer every quantile from a target bin overlapping the scaled range of a source bin within one unit of rank, be an exact independent copy for the identity conversion, and rescale exact statistics; a second generator converts a very coarse mapping to one 2e5..4e6 times finer (one source bin over millions of target bins). Re-detects repaired finding F6.",
+        text="Generated-input search with validity predicates derived from the conversion's specification: for ordered mapping pairs (3x3 kinds; coarser, finer, equal, bin-aligned) and scales in [1e-3,1e3], the result must carry the requested mapping, leave the source unchanged, keep zero weight exactly and total weight within a derived bound, hold no negative bin (observed through forms that show non-positive bins), place weight only in target bins overlapping scaled source bins (isolated source bins hand over exactly their weight), answer every quantile from a target bin overlapping the scaled range of a source bin within one unit of rank, be an exact independent copy for the identity conversion, and rescale exact statistics; a second generator converts a very coarse mapping to one 2e5..4e6 times finer (one source bin over millions of target bins); source and target mappings are also rebuilt with index offsets up to +-1.5e9. Re-detects repaired findings F6 and F10.",
         design_ref="DESIGN.md §2 C17",
         note="Trusted: LowerBound of both mappings for the overlap predicates (C03 checks them). Values kept well inside both ranges as the property requires.",
         technique="property-based testing (rapid) with conservation / locality / rank-window validity predicates",
     ),
     'C18': dict(
-        text="Generated-input search: seeded rapid generators of uint64/int64/float64 values (bit-length classes, 2^k+-d, non-finite, subnormal, +1-rounding) and random byte strings, checked against an independent reference codec written from the format documentation (byte-for-byte encodings, sizes, exact consumption with trailing bytes, EOF on every strict prefix without consuming), plus complete enumeration of all byte strings of length <= 2 per decoder and all 256 flags; thorough adds a coverage-guided native fuzz campaign. Exploration is the right level: the property is a for-all over bit patterns with an executable differential oracle.",
+        text="Generated-input search: seeded rapid generators of uint64/int64/float64 values (bit-length classes, 2^k+-d, non-finite, subnormal, +1-rounding) and random byte strings, checked against an independent reference codec written from the format documentation (byte-for-byte encodings, sizes, exact consumption with trailing bytes, EOF on every strict prefix without consuming), plus complete enumeration of all byte strings of length <= 2 per decoder and all 256 flags; encoders run on destination slices in drawn states (empty, or 1..12 bytes with 0..9 bytes of spare capacity) whose content must survive; thorough adds a coverage-guided native fuzz campaign. Exploration is the right level: the property is a for-all over bit patterns with an executable differential oracle.",
         design_ref="DESIGN.md §2 C18",
         note="Trusted base: harness/refdec (independent re-implementation from the doc comments), Go runtime, rapid. Sampling except for the enumerated sub-space; a defect confined to one specific 64-bit pattern outside the boundary classes could be missed.",
         technique="property-based testing (rapid) with differential oracle against an independent reference codec; exhaustive small-input enumeration; native fuzzing in thorough",
